@@ -820,6 +820,37 @@ fn decode_obs<S: Sch>(buf: &[u8], with_acc: bool, out: &mut String) {
             String::new()
         }
     };
+    // the same item followed by a very long suffix (a dump of many records, a memory-mapped file):
+    // same outcome, same number of bytes consumed; on a sample of the inputs
+    let par = {
+        let h = buf.iter().fold(buf.len() as u32, |a, b| a.wrapping_mul(37).wrapping_add(*b as u32));
+        if h % 16 == 1 && buf.len() <= 320 {
+            let plain: Option<(bool, usize)> = match &r {
+                None => None,
+                Some((Ok(_), used)) => Some((true, *used)),
+                Some((Err(_), _)) => Some((false, 0)),
+            };
+            let sizes = [1usize << 16, 1 << 20, (1 << 24) - buf.len(), 1 << 24, (1 << 24) + 4096, 1 << 25];
+            let mut same = 0usize;
+            for n in sizes {
+                let mut big = Vec::with_capacity(buf.len() + n);
+                big.extend_from_slice(buf);
+                big.resize(buf.len() + n, 0u8);
+                let got = guard(|| {
+                    let mut b: &[u8] = &big;
+                    let r = Enr::<S::K>::decode(&mut b);
+                    (r.is_ok(), big.len() - b.len())
+                });
+                let got = got.map(|(ok, used)| (ok, if ok { used } else { 0 }));
+                if got == plain {
+                    same += 1;
+                }
+            }
+            format!("{par} big={same}/{}", sizes.len())
+        } else {
+            par
+        }
+    };
     match r {
         None => writeln!(out, "out res=panic{par}").unwrap(),
         Some((Err(e), _)) => {
